@@ -161,6 +161,7 @@ def prepare(ctx, mod):
     os.makedirs(OUT, exist_ok=True)
     lock = open(os.path.join(VERIF, '.lock'), 'w')
     fcntl.flock(lock, fcntl.LOCK_EX)
+    props_built = False
     try:
         sys.path.insert(0, os.path.join(VERIF, 'harness'))
         import extract
@@ -189,35 +190,37 @@ def prepare(ctx, mod):
                 ctx.driver_path = dst
         # theorems
         rc, out = lake_build([mod.LEAN_PROPS, 'SupervisorModel.Audit'])
-        audit = []
+        props_built = rc == 0
         if rc != 0:
             ctx.broken.append({'kind': 'proof', 'name': failing_decls(out) or mod.LEAN_PROPS,
                                'what': 'lake build %s failed: %s' % (mod.LEAN_PROPS, tail_err(out))})
-        else:
-            ns = 'Sv.Props.' + mod.ID
-            f = os.path.join(ctx.scratch, 'audit.lean')
-            open(f, 'w').write('import %s\nimport SupervisorModel.Audit\n#audit %s\n' % (mod.LEAN_PROPS, ns))
-            rc, out = sh(['lake', 'env', 'lean', f], cwd=LEAN, timeout=900)
-            for line in out.split('\n'):
-                if line.startswith('AUDIT '):
-                    audit.append(json.loads(line[6:]))
-            if rc != 0 or not audit:
-                ctx.broken.append({'kind': 'audit', 'name': 'Audit', 'what': 'audit failed: ' + out[-400:]})
-            for a in audit:
-                bad = set(a['axioms']) - ALLOWED_AXIOMS
-                if bad:
-                    ctx.broken.append({'kind': 'audit', 'name': a['theorem'], 'what': 'forbidden axioms %s' % sorted(bad)})
-            # source grep over the import closure of the property's theorems (comments stripped)
-            for path in import_closure(mod.LEAN_PROPS):
-                if os.path.basename(path) == 'Audit.lean':
-                    continue
-                m = FORBIDDEN.search(strip_lean_comments(open(path).read()))
-                if m:
-                    ctx.broken.append({'kind': 'audit', 'name': os.path.basename(path), 'what': 'forbidden token %r' % m.group(0)})
-        return audit
     finally:
         fcntl.flock(lock, fcntl.LOCK_UN)
         lock.close()
+    # ---- audit (read-only; outside the build lock)
+    audit = []
+    if props_built:
+        ns = 'Sv.Props.' + mod.ID
+        f = os.path.join(ctx.scratch, 'audit.lean')
+        open(f, 'w').write('import %s\nimport SupervisorModel.Audit\n#audit %s\n' % (mod.LEAN_PROPS, ns))
+        rc, out = sh(['lake', 'env', 'lean', f], cwd=LEAN, timeout=900)
+        for line in out.split('\n'):
+            if line.startswith('AUDIT '):
+                audit.append(json.loads(line[6:]))
+        if rc != 0 or not audit:
+            ctx.broken.append({'kind': 'audit', 'name': 'Audit', 'what': 'audit failed: ' + out[-400:]})
+        for a in audit:
+            bad = set(a['axioms']) - ALLOWED_AXIOMS
+            if bad:
+                ctx.broken.append({'kind': 'audit', 'name': a['theorem'], 'what': 'forbidden axioms %s' % sorted(bad)})
+        # source grep over the import closure of the property's theorems (comments stripped)
+        for path in import_closure(mod.LEAN_PROPS):
+            if os.path.basename(path) == 'Audit.lean':
+                continue
+            m = FORBIDDEN.search(strip_lean_comments(open(path).read()))
+            if m:
+                ctx.broken.append({'kind': 'audit', 'name': os.path.basename(path), 'what': 'forbidden token %r' % m.group(0)})
+    return audit
 
 
 def import_closure(module):
